@@ -873,16 +873,16 @@ KNOWN_PREDICATES = {
 
 
 SUBCHECKS = [
-    SubCheck('subsets', lambda: TABLE, run_subsets, quick=800, thorough=25000),
-    SubCheck('mdv_evid', lambda: TABLE, run_mdv_evid, quick=800, thorough=25000),
-    SubCheck('doseid', lambda: TABLE, run_doseid, quick=1600, thorough=60000),
-    SubCheck('tad', lambda: TABLE, run_tad, quick=1600, thorough=60000),
-    SubCheck('tad_frame', lambda: TABLE, run_tad_frame, quick=800, thorough=25000),
-    SubCheck('expand', lambda: TABLE, run_expand, quick=1200, thorough=40000),
-    SubCheck('expand_frame', lambda: TABLE, run_expand_frame, quick=500, thorough=15000),
-    SubCheck('cmt_admid', lambda: TABLE, run_cmt_admid, quick=1200, thorough=40000),
-    SubCheck('add_cmt_admid', lambda: TABLE, run_add_cmt_admid, quick=500, thorough=15000),
-    SubCheck('baselines', lambda: TABLE, run_baselines, quick=700, thorough=20000),
+    SubCheck('subsets', lambda: TABLE, run_subsets, quick=1000, thorough=25000),
+    SubCheck('mdv_evid', lambda: TABLE, run_mdv_evid, quick=1000, thorough=25000),
+    SubCheck('doseid', lambda: TABLE, run_doseid, quick=2000, thorough=60000),
+    SubCheck('tad', lambda: TABLE, run_tad, quick=2000, thorough=60000),
+    SubCheck('tad_frame', lambda: TABLE, run_tad_frame, quick=1000, thorough=25000),
+    SubCheck('expand', lambda: TABLE, run_expand, quick=1600, thorough=40000),
+    SubCheck('expand_frame', lambda: TABLE, run_expand_frame, quick=640, thorough=15000),
+    SubCheck('cmt_admid', lambda: TABLE, run_cmt_admid, quick=1600, thorough=40000),
+    SubCheck('add_cmt_admid', lambda: TABLE, run_add_cmt_admid, quick=640, thorough=15000),
+    SubCheck('baselines', lambda: TABLE, run_baselines, quick=900, thorough=20000),
 ]
 
 
@@ -941,6 +941,7 @@ PROPOSED_KNOWN_FINDINGS = [
     ('D7', 'doseid', 'get_doseid[time-shared-by-reset-groups]:', 'time_shared_by_reset_groups', _S_SHARED),
     ('D7', 'doseid', 'get_doseid[time-shared-by-reset-groups]:', 'time_shared_by_reset_groups', _S_SHARED_RESTART),
     ('D7', 'tad', 'tad[time-shared-by-reset-groups]:value:', 'time_shared_by_reset_groups', _S_SHARED),
+    ('D7', 'tad_frame', 'tad_frame:record-order', 'time_shared_by_reset_groups', {'restart': True, 'cols': {'evid': True, 'addl': True}, 'inds': [{'recs': [{'dt': 2, 'addl': 1, 'k': 4, 'ii': 3}, {'k': 3}, {'dt': 3}, {'dt': 2}, {}]}]}),
     ('D8', 'tad', 'tad[time-restart]:negative', 'time_restart', {'restart': True, 'cols': {'evid': True}, 'inds': [{'recs': [{'dt': 1}, {'k': 3}]}]}),
     ('D8', 'tad', 'tad[additional-dose-pending-at-reset]:negative', 'additional_dose_pending_at_reset', {'cols': {'addl': True, 'evid': True}, 'inds': [{'recs': [{'k': 4, 'addl': 1}, {'k': 3}]}]}),
     ('D9', 'cmt_admid', 'get_cmt:UnboundLocalError@modeling/data.py:get_cmt', 'admid_column_and_oral_only_model', {'kind': 1, 'cols': {'admid': True}}),
